@@ -129,13 +129,31 @@ def check(an: Analysis) -> None:
         cbfuns = [nf for nf in init.nested]
         arg = cbs[0][1].args[0] if cbs[0][1].args else None
         dinit = Deps(prog, init)
-        for _hop in range(3):  # `cb = <nested def>` / the return value of an inlined factory
-            if isinstance(arg, ast.Name) and not any(nf.name == arg.id for nf in cbfuns) and (sv := dinit.single_value(arg.id)) is not None:
-                arg = sv
-        if not (isinstance(arg, ast.Name) and any(nf.name == arg.id for nf in cbfuns)):
+        # `cb = <nested def>` / the value(s) returned by an inlined factory: every definition must be a local wrapper
+        def wrappers_of(e: ast.AST | None, depth: int = 3) -> set[str] | None:
+            if not isinstance(e, ast.Name):
+                return None
+            if any(nf.name == e.id for nf in cbfuns):
+                return {e.id}
+            if depth == 0:
+                return None
+            vals_ = [v for k, v in dinit.defs(init, e.id) if k == "value" and not getattr(parent(v), "_inline_init", False)]
+            if not vals_ or len(vals_) != len([1 for k, v in dinit.defs(init, e.id) if not getattr(parent(v), "_inline_init", False)]):
+                return None
+            out_: set[str] = set()
+            for v in vals_:
+                sub = wrappers_of(v, depth - 1)
+                if sub is None:
+                    return None
+                out_ |= sub
+            return out_
+
+        attached = wrappers_of(arg)
+        if not attached:
             ob.fail(init, cbs[0][1], "the done-callback is not one of the local completion wrappers")
+            attached = set()
         for nf in cbfuns:
-            if isinstance(arg, ast.Name) and nf.name == arg.id:
+            if nf.name in attached:
                 d = Deps(prog, nf)
                 calls = [c for c in nf.own_nodes() if isinstance(c, ast.Call) and "param:completion" in d.of(c.func)]
                 ob.inst(nf, calls[0] if calls else None, "callback body")
